@@ -1,6 +1,6 @@
 (** * C01 — orders execute by strict price-time priority; equality with a reference engine *)
 From Bourse Require Import Model.Types Model.Map Model.Side Model.Book Model.Obs Spec.RefBook
-  Proofs.Ledger Proofs.Refine Proofs.RefProps.
+  Proofs.Ledger Proofs.Refine Proofs.RefProps Proofs.Volumes Proofs.Reload.
 
 (** Refinement, one operation: under the queue invariant every successful
     operation of the model (create / place / create-and-place / cancel / modify /
@@ -24,6 +24,18 @@ Theorem c01_refines_history : forall t0 tick tr s0 ops s xs,
 Proof.
   intros t0 tick tr s0 ops s xs H0 Hu Hnr H. destruct (InvQ_new _ _ _ _ H0) as [I E]. rewrite <- E.
   eapply run_refines; eauto.
+Qed.
+
+(** The same with snapshot reloads anywhere in the history (the reference engine's
+    reload is the identity): this needs the volume invariant too ([Inv] = [InvQ] + [InvV]),
+    because the reload theorem rebuilds the per-level maps. *)
+Theorem c01_refines_history_with_reloads : forall t0 tick tr s0 ops s xs,
+  book_new t0 tick tr = Ok s0 -> Forall op_u32 ops ->
+  run_outs s0 ops = Ok (s, xs) ->
+  ref_run_outs (ref_new t0 tick tr) ops = Some (abs s, xs) /\ Inv s.
+Proof.
+  intros t0 tick tr s0 ops s xs H0 Hu H. destruct (InvQ_new _ _ _ _ H0) as [_ E]. rewrite <- E.
+  eapply run_inv_all; [eapply Inv_new; eassumption | eassumption | eassumption].
 Qed.
 
 (** The matching loop is the reference walk over the opposite queue. *)
@@ -77,6 +89,7 @@ Proof. vm_compute. reflexivity. Qed.
 
 Print Assumptions c01_refines_step.
 Print Assumptions c01_refines_history.
+Print Assumptions c01_refines_history_with_reloads.
 Print Assumptions c01_matching_is_reference_walk.
 Print Assumptions c01_ref_consumes_prefix.
 Print Assumptions c01_ref_stops_when_exhausted_or_limit.
